@@ -335,6 +335,8 @@ def threads_run(rng, out):
 
 
 def run(ctx, out):
+    import families as _fam
+    out.evaluations += _fam.same_class_union_serialisation(out, PROP)
     rng = random.Random(ctx['seed'])
     thorough = ctx['tier'] == 'thorough'
     out.rule = ('(1) random call histories (keys 0-5, length 1-40) on the real KeyCache, unbounded and maxsize 1-4, compared call by '
